@@ -107,7 +107,7 @@ def step (s : St) (line : String) : St × String :=
   | ["chain", known, steps, beh, probes] =>
     let kn := commas known
     let f := builtinStep (behOf beh.toList)
-    let envs := envTrace (fun st => kn.contains st) f s.pd 0 (objects (commas steps))
+    let envs := envTrace (fun st => kn.contains st) f s.pd 0 (commas steps)
     let showEnv := fun (d : Dict) => ",".intercalate ((commas probes).map (fun k =>
       k ++ "=" ++ (match dget d k with | some v => v | none => "<unset>")))
     (s, showChain (runChain (fun st => kn.contains st) f s.pd (commas steps)) ++ "\tenv=" ++ "|".intercalate (envs.map showEnv))
